@@ -8,7 +8,7 @@ ALL = ["C%02d" % i for i in range(1, 21)]
 CHECKS = {
     "C02": ("exploration",
             "runtime monitoring: strict independent backend-grammar parser over every server byte (generated handler programs + hostile client inputs) and a model-based monitor of the public buffer.Writer API over a transiently failing sink",
-            "Handler programs drawn from a grammar (columns, rows, abandoned frames, tags, decorated errors, COPY) and structure-aware mutations of client sessions are run against the real server; the whole server-to-client stream of each connection must parse exactly. Held-on-observed.",
+            "Handler programs drawn from a grammar (columns, rows, abandoned frames, tags, decorated errors, COPY) and structure-aware mutations of client sessions are run against the real server; the whole server-to-client stream of each connection must parse exactly; the k-th transport Write of every canonical session is interrupted half-way by a temporary error (whole messages, then at most the accepted half of the interrupted one); Bind format codes over the whole 16-bit range. Held-on-observed.",
             "Trusts the strict parser written from the protocol documentation; NUL-free handler strings assumed.",
             "DESIGN.md 4/C02"),
     "C03": ("exploration",
@@ -17,7 +17,7 @@ CHECKS = {
             "ParameterStatus order normalised; after an accessor error the sequence is not judged further.",
             "DESIGN.md 4/C03"),
     "C04": ("fault_enumeration",
-            "runtime monitoring with exhaustive fault injection at the transport (every k-th Read, k-th Write, every inbound byte offset of each canonical session) + structure-aware input mutation; oracles: child-process crash oracle, close/spin/leak detectors, probe connections, allocation profile sanitizer (MemProfileRate=1), no-fabrication frame model",
+            "runtime monitoring with exhaustive fault injection at the transport (every k-th Read, k-th Write, every inbound byte offset of each canonical session; permanent errors, EOF, short writes, and transient faults: a temporary read error once, reads timing out for good, a write interrupted half-way) + structure-aware input mutation; oracles: child-process crash oracle, close/spin/leak detectors, probe connections, allocation profile sanitizer (MemProfileRate=1), no-fabrication frame model",
             "For each canonical session the fault-free run's reads, writes and bytes are measured and every fault position is then injected (error, EOF, short write); mutated inputs are run in every phase; every type of the default type map is fed hostile binary and text values through both decode entry points; bodies full of aligned message look-alikes. The process must survive, the connection must end, nothing may leak, allocations stay under 8L+4MiB, and callbacks only see data carried by well-framed input. Exhaustive over fault positions of the listed sessions; held-on-observed for mutations.",
             "Faults are injected at the net.Conn boundary (where the library observes them); allocation bound has an additive constant (see assumptions).",
             "DESIGN.md 4/C04"),
